@@ -163,6 +163,22 @@ pub fn pki() -> &'static Pki {
             let c = make_odd_cert("rdp-server.odd-\u{e9}\u{4e2d}", &k, variant);
             ids.push(Identity { name: "rsa2048-odd-certificate", spk: rsa_spk(&k), acceptor: acceptor(&c, &k), cert: c, key: k, trusted: false });
         }
+        // raw-key certificates whose public key begins (and, for the second, also ends) with 0xFF: the "+ 1" of the CredSSP
+        // binding carries out of the first byte there (index 10 when Ed25519 is available)
+        for want_last in [false] {
+            for _ in 0..20_000 {
+                if let Ok(k) = PKey::generate_ed25519() {
+                    let spk = k.raw_public_key().unwrap();
+                    if spk[0] == 0xFF && (!want_last || spk[1] == 0xFF) {
+                        let c = make_odd_cert("rdp-server.ed25519-ff", &k, 0);
+                        ids.push(Identity { name: "ed25519-key-starting-with-ff", spk, acceptor: acceptor(&c, &k), cert: c, key: k, trusted: false });
+                        break;
+                    }
+                } else {
+                    break;
+                }
+            }
+        }
         Pki { ids }
     })
 }
@@ -285,6 +301,8 @@ pub struct NlaReport {
     pub ts_requests: Vec<Vec<u8>>,
     pub reached_final: bool,
     pub notes: Vec<String>,
+    /// the session key of this connection as the server recovered it from the AUTHENTICATE message
+    pub exported_session_key: Option<Vec<u8>>,
 }
 
 pub struct ServerReport {
@@ -544,6 +562,7 @@ fn credssp<T: Read + Write>(tls: &mut SslStream<T>, id: &Identity, n: &NlaCfg, r
             return false;
         }
     };
+    nla.exported_session_key = Some(v.exported_session_key.clone());
     let keys = crypto::session_keys(&v.exported_session_key);
     let mut from_client = SealCtx::new(&keys.client_sign, &keys.client_seal);
     match from_client.unseal(&pka) {
@@ -909,6 +928,21 @@ pub fn run_tls_with_events(cfg: &ClientCfg, scfg: &TlsServerCfg, reads: usize, d
 /// One whole connection through the public entry point. `reads` = number of RdpClient::read calls to make after connect.
 pub fn run_tls(cfg: &ClientCfg, scfg: &TlsServerCfg, reads: usize, do_shutdown: bool, extra: &mut dyn FnMut(&mut RdpClient<Tee>)) -> TlsRun {
     run_tls_inner(cfg, scfg, reads, do_shutdown, extra, None, None)
+}
+
+/// One NLA connection through x224::Client::connect with an authentication object the caller owns (and may have used for an
+/// earlier connection). Returns the client's result and the server's report.
+pub fn run_x224_nla(ntlm: &mut rdp::nla::ntlm::Ntlm, scfg: &TlsServerCfg) -> (Res<()>, ServerReport, bool) {
+    let (a, b) = UnixStream::pair().expect("socketpair");
+    let _ = a.set_read_timeout(Some(Duration::from_secs(TIMEOUT_S)));
+    let _ = a.set_write_timeout(Some(Duration::from_secs(TIMEOUT_S)));
+    let scfg2 = scfg.clone();
+    let th = std::thread::Builder::new().stack_size(1 << 20).spawn(move || serve(b, scfg2)).expect("spawn");
+    let tp = rdp::core::tpkt::Client::new(rdp::model::link::Link::new(rdp::model::link::Stream::Raw(a)));
+    let (r, _) = call(|| rdp::core::x224::Client::connect(tp, 3, false, Some(ntlm), false, false).map(|x| drop(x)));
+    let timeout = matches!(&r, Res::Err(e) if e.contains("WouldBlock") || e.contains("TimedOut"));
+    let report = th.join().unwrap_or_else(|_| ServerReport { cr: None, pre_tls: vec![], tls_established: false, tls_error: Some("server thread panicked".into()), nla: NlaReport::default(), server: None, app_bytes: 0, timeout: false, early_bytes_before_reply: false });
+    (r, report, timeout)
 }
 
 /// like run_tls with a Connector object the caller owns (and may have used for earlier connections)
